@@ -395,7 +395,7 @@ def check(ctx):
             raise core.Machinery("sequential driver failed: %s" % (val,))
         traces.extend(val)
     if not any(any(e["e"] == "bs" for e in t["ev"]) for t in traces):
-        raise core.Machinery("vacuity: no block entered")
+        core.vacuity("no block entered")
     validate(ctx, "sequential", traces)
     # (3) threads under the scheduler
     jobs = []
@@ -416,7 +416,7 @@ def check(ctx):
         traces.extend(val)
     inter = sum(1 for t in traces if len(t["plan"]) > 0)
     if inter < 10:
-        raise core.Machinery("vacuity: only %d pre-empted schedules" % inter)
+        core.vacuity("only %d pre-empted schedules" % inter)
     validate(ctx, "threads", traces)
     # (4) as_dict decision table
     c = {"Attrs": set(ATTRS), "States": {"alive", "zombie", "denied", "gone"}}
